@@ -79,13 +79,20 @@ func c08Run(c *vcore.Ctx) *vcore.Violation {
 		r.FileSize = pickV("fsize", 0, 0, 1<<20, 1<<35)
 		r.Stack = pickV("stack", 0, 0, 8<<20, 1<<32+8192)
 		r.AddressSpace = pickV("as", 0, 0, 1<<32+4096, 1<<34) // below the 32 GiB hard limit bin/check runs under (no CAP_SYS_RESOURCE here)
-		r.OpenFile = pickV("nofile", 0, 0, 64, 1000)
+		r.OpenFile = pickV("nofile", 0, 0, 64, 1000, 1000, own[syscall.RLIMIT_NOFILE][1]+10000)
+		// (the last value lies above the caller's own hard limit, which nobody here may raise: the launch
+		// must then be refused - never go ahead under some other limit)
+		aboveHard := r.OpenFile > own[syscall.RLIMIT_NOFILE][1]
+		if aboveHard {
+			c.Fault("limit_above_callers_hard_limit")
+		}
 		r.DisableCore = src.Bool(1, 2, "core")
 		rl := r.PrepareRLimit()
 		// a raw list may also be given directly, in any order
 		if src.Bool(1, 4, "rawlist") {
 			rl = []rlimit.RLimit{{Res: syscall.RLIMIT_NOFILE, Rlim: syscall.Rlimit{Cur: 100, Max: 200}}, {Res: syscall.RLIMIT_CPU, Rlim: syscall.Rlimit{Cur: 5, Max: 1 << 33}}}
 			r = rlimit.RLimits{}
+			aboveHard = false
 		}
 		c.Logf("runner=%s limits=%v", kind, rl)
 		c.Event(fmt.Sprintf("limits:%v", rl))
@@ -98,6 +105,10 @@ func c08Run(c *vcore.Ctx) *vcore.Violation {
 			res, out = runKind(context.Background(), kind, []string{"state", "exit", "0"}, rl, runner.Limit{}, "")
 		}) {
 			return vcore.Violate(prop, "hang", kind, "run did not return")
+		}
+		if aboveHard && res.Status == runner.StatusRunnerError && res.Error != "" {
+			c.Probe("limit_above_hard_refused")
+			return nil
 		}
 		if res.Status != runner.StatusNormal {
 			return vcore.Violate(prop, "launch_failed", kind, "a program under limits %v did not run normally: %s %s", rl, statusName(res.Status), res.Error)
@@ -219,7 +230,20 @@ func c08Pipe(c *vcore.Ctx) *vcore.Violation {
 		vol = 0
 	}
 	useProcess := src.Bool(1, 2, "writer_process")
-	c.Logf("collector cap=%d volume=%d writer=%s", n, vol, map[bool]string{true: "probe process", false: "goroutine"}[useProcess])
+	// the writer may stop for a while in the middle of its output (a program that computes between two
+	// prints): the collector must neither block it nor break its pipe, however long after the cap was reached
+	pause := []time.Duration{0, 0, 0, 0, 0, 0, 100 * time.Millisecond, 100 * time.Millisecond, 2500 * time.Millisecond, 6 * time.Second}[src.Int(10, "writer_pause")]
+	pauseAt := vol / 2
+	if src.Bool(1, 2, "pause_after_cap") && vol > n+1 {
+		pauseAt = n + 1 + (vol-n-1)/2
+	}
+	if vol < 2 {
+		pause = 0
+	}
+	if pause > 0 {
+		c.Fault("writer_pauses_mid_output")
+	}
+	c.Logf("collector cap=%d volume=%d writer=%s pause=%v after %d bytes", n, vol, map[bool]string{true: "probe process", false: "goroutine"}[useProcess], pause, pauseAt)
 	c.Event(fmt.Sprintf("pipe:%d:%d:%v", n, vol, useProcess))
 	c.MarkNonTrivial()
 	buf, err := pipe.NewBuffer(n)
@@ -232,12 +256,17 @@ func c08Pipe(c *vcore.Ctx) *vcore.Violation {
 		if useProcess {
 			// the sandboxed program writes to the collector's pipe as its stdout, reports on descriptor 2
 			w, out, _ := kPipe()
-			res, _ := runWithStdout(buf.W, w, []string{"out", "2", "write", "1", fmt.Sprint(vol), "exit", "0"})
+			script := []string{"out", "2", "write", "1", fmt.Sprint(vol), "exit", "0"}
+			if pause > 0 {
+				script = []string{"out", "2", "write", "1", fmt.Sprint(pauseAt), "sleep", fmt.Sprint(pause.Milliseconds()), "write", "1", fmt.Sprint(vol - pauseAt), "exit", "0"}
+			}
+			res, _ := runWithStdout(buf.W, w, script)
 			w.Close()
-			out.wait(5 * time.Second)
+			out.wait(20 * time.Second)
 			for _, l := range out.find("wrote ") {
 				f := strings.Fields(l)
-				wrote, _ = strconv.ParseInt(f[1], 10, 64)
+				k, _ := strconv.ParseInt(f[1], 10, 64)
+				wrote += k
 				if f[2] != "0" {
 					werr = fmt.Errorf("write errno %s", f[2])
 				}
@@ -248,10 +277,18 @@ func c08Pipe(c *vcore.Ctx) *vcore.Violation {
 		} else {
 			chunk := []int{1, 7, 512, 4096, 65536}[src.Int(5, "chunk")]
 			data := make([]byte, chunk)
+			paused := pause == 0
 			for wrote < vol {
+				if !paused && wrote >= pauseAt {
+					paused = true
+					time.Sleep(pause)
+				}
 				k := int64(chunk)
 				if vol-wrote < k {
 					k = vol - wrote
+				}
+				if !paused && wrote+k > pauseAt {
+					k = pauseAt - wrote
 				}
 				m, err := buf.W.Write(data[:k])
 				wrote += int64(m)
